@@ -50,8 +50,12 @@ pass_parameter(ostream &out, const string &variable_name) {
  */
 string ParameterRemapBasicStringToString::
 prepare_return_expr(ostream &out, int indent_level, const string &expression) {
+  // The holder keeps the characters alive after the wrapper returns; it must
+  // be assigned on every call, not only initialized by the first one.
   InterfaceMaker::indent(out, indent_level)
-    << "static std::string string_holder = " << expression << ";\n";
+    << "static std::string string_holder;\n";
+  InterfaceMaker::indent(out, indent_level)
+    << "string_holder = " << expression << ";\n";
   return "string_holder";
 }
 
@@ -96,8 +100,12 @@ pass_parameter(ostream &out, const string &variable_name) {
  */
 string ParameterRemapBasicWStringToWString::
 prepare_return_expr(ostream &out, int indent_level, const string &expression) {
+  // The holder keeps the characters alive after the wrapper returns; it must
+  // be assigned on every call, not only initialized by the first one.
   InterfaceMaker::indent(out, indent_level)
-    << "static std::wstring string_holder = " << expression << ";\n";
+    << "static std::wstring string_holder;\n";
+  InterfaceMaker::indent(out, indent_level)
+    << "string_holder = " << expression << ";\n";
   return "string_holder";
 }
 
